@@ -1,19 +1,194 @@
 /-
   C13  The circular buffer is a loss-free FIFO with exact drop accounting.
   PROPERTY THEOREMS ONLY (helper lemmas live in PdshVerif/Cbuf/*.lean).
+
+  Model:  PdshVerif/Cbuf/Model.lean  (index-level mirror of src/pdsh/cbuf.c)
+  Spec:   PdshVerif/Cbuf/Spec.lean   (a plain FIFO `q : List UInt8` with a capacity)
+
+  What is proved (for ALL buffers, sizes, modes, contents and operation histories):
+  * every history over write / write-from-descriptor / write_line / read / peek / drop /
+    read_line / peek_line / drop_line / flush / opt_set, started from `cbuf_create`, is accepted step by
+    step by the FIFO specification with identical answers, and the abstraction (the unread
+    bytes) commutes with every step                              (`history_refines_fifo`);
+  * the invariant checked by `cbuf_is_valid` holds in every reachable state
+    (`reachable_valid`), hence `min ≤ size ≤ max` and `used ≤ size` (`size_bounds`);
+  * facts about the specification that say what "FIFO with exact drop accounting" means:
+    conservation of bytes, suffix property, no-drop mode loses nothing, all-or-nothing lines.
+  NOT modelled: the replay/rewind/copy/move entry points (not in the property's operation list),
+  `cbuf_read_to_fd`/`cbuf_peek_to_fd` with short writes (exercised by the correspondence only).
 -/
-import PdshVerif.Cbuf.Model
-import PdshVerif.Cbuf.Spec
+import PdshVerif.Cbuf.Ops
 
 namespace PdshVerif.C13
 open PdshVerif.Cbuf
 
-/-- a freshly created buffer is empty -/
-theorem create_empty (mn mx : Int) (sm : Nat) (c : Cbuf) (h : create mn mx sm = some c) :
-    contents c = [] := by
-  unfold create at h
-  split at h
-  · simp at h
-  · simp at h; subst h; simp [contents, circRead]
+/-- C13 main theorem: any operation history on a freshly created buffer behaves like the FIFO.
+    `traceM` is the model's own annotated history (operation, answer, reported capacity);
+    `acceptS` replays it on the specification, comparing every answer. -/
+theorem history_refines_fifo (mn mx : Int) (sm : Nat) (hsm : 0 < sm) (c : Cbuf)
+    (hc : create mn mx sm = some c) (ops : List Op) :
+    acceptS (abs c) (traceM c ops) = some (abs (runM c ops).2) := by
+  exact (run_refines (inv_create hsm hc).1 ops).1
+
+/-- the abstract state of a fresh buffer is the empty FIFO the specification starts from -/
+theorem create_refines (mn mx : Int) (sm : Nat) (c : Cbuf) (hc : create mn mx sm = some c) :
+    Spec.create mn mx = some (abs c) := by
+  unfold create at hc
+  unfold Spec.create
+  split at hc
+  · simp at hc
+  · rename_i h
+    simp only [Option.some.injEq] at hc
+    subst hc
+    simp [h, abs, absMode, contents, circRead]
+
+/-- `cbuf_create` refuses exactly what the specification refuses -/
+theorem create_none_iff (mn mx : Int) (sm : Nat) : create mn mx sm = none ↔ Spec.create mn mx = none := by
+  unfold create Spec.create
+  split <;> simp
+
+/-- every reachable state satisfies the conjuncts of `cbuf_is_valid` -/
+theorem reachable_valid (mn mx : Int) (sm : Nat) (hsm : 0 < sm) (c : Cbuf)
+    (hc : create mn mx sm = some c) (ops : List Op) :
+    isValid (runM c ops).2 = true := by
+  exact isValid_of_inv (run_refines (inv_create hsm hc).1 ops).2
+
+/-- the buffer never reports a size outside [min,max] nor holds more than its size -/
+theorem size_bounds (mn mx : Int) (sm : Nat) (hsm : 0 < sm) (c : Cbuf)
+    (hc : create mn mx sm = some c) (ops : List Op) :
+    let c' := (runM c ops).2
+    c'.minsize ≤ c'.size ∧ c'.size ≤ c'.maxsize ∧ c'.used ≤ c'.size ∧ (contents c').length = c'.used := by
+  have hi := (run_refines (inv_create hsm hc).1 ops).2
+  exact ⟨hi.smin, hi.smax, hi.used, contents_length _⟩
+
+/-! ### what the specification itself guarantees (independent of the index model) -/
+
+/-- every admissible answer of a write falls into one of these shapes -/
+theorem spec_write_shape (f f' : Spec.Fifo) (bs : List UInt8) (sz : Nat) (r : Int) (d : Nat)
+    (hfs : 0 < f.size) (h : Spec.write f bs sz = some (r, d, f')) :
+    (bs.length = 0 ∧ r = 0 ∧ d = 0 ∧ f' = f) ∨
+    (bs.length ≠ 0 ∧ f.size ≤ sz ∧ sz ≤ f.maxsize ∧
+      ((r = -1 ∧ d = 0 ∧ f'.q = f.q ∧ f.mode = .noDrop) ∨
+       (∃ k, 0 < k ∧ k ≤ bs.length ∧ r = (k : Int) ∧ (f.mode = .noDrop → k ≤ sz - f.q.length) ∧
+          d = k - (sz - f.q.length) ∧ (f.mode = .noDrop → d = 0) ∧
+          f'.q = Spec.lastN sz (f.q ++ bs.take k) ∧ f'.size = sz))) := by
+  by_cases h0 : bs.length = 0
+  · left
+    simp only [Spec.write, h0, if_true] at h
+    by_cases hs : sz = f.size
+    · simp only [hs, if_true, Option.some.injEq, Prod.mk.injEq] at h
+      obtain ⟨h1, h2, h3⟩ := h
+      exact ⟨h0, h1.symm, h2.symm, h3.symm⟩
+    · simp [hs] at h
+  · right
+    by_cases hadm : Spec.admitSize f sz = true
+    · have hs := (admitSize_iff f sz).1 hadm
+      refine ⟨h0, hs.1, hs.2, ?_⟩
+      cases hm : f.mode with
+      | noDrop =>
+        simp only [Spec.write, h0, if_false, hadm, Bool.not_true, Bool.false_eq_true, hm] at h
+        by_cases hlo : Spec.lossOk f sz (decide (min bs.length (sz - f.q.length) < bs.length)) = true
+        · simp only [hlo, Bool.not_true, Bool.false_eq_true, if_false] at h
+          by_cases hk : min bs.length (sz - f.q.length) = 0
+          · simp only [hk, if_true, Option.some.injEq, Prod.mk.injEq] at h
+            obtain ⟨h1, h2, h3⟩ := h
+            left; subst h3; exact ⟨h1.symm, h2.symm, rfl, rfl⟩
+          · simp only [hk, if_false, Option.some.injEq, Prod.mk.injEq] at h
+            obtain ⟨h1, h2, h3⟩ := h
+            right
+            refine ⟨min bs.length (sz - f.q.length), by omega, by omega, h1.symm, fun _ => by omega, ?_,
+              fun _ => h2.symm, ?_, ?_⟩
+            · omega
+            · subst h3; simp only [Spec.lastN, List.length_append, List.length_take]
+              have : f.q.length + min (min bs.length (sz - f.q.length)) bs.length - sz = 0 := by omega
+              rw [this]; simp
+            · subst h3; rfl
+        · simp [hlo] at h
+      | wrapOnce =>
+        simp only [Spec.write, h0, if_false, hadm, Bool.not_true, Bool.false_eq_true, hm] at h
+        split at h
+        · simp at h
+        · simp only [Option.some.injEq, Prod.mk.injEq] at h
+          obtain ⟨h1, h2, h3⟩ := h
+          right
+          have hpos : 0 < sz := by omega
+          exact ⟨min bs.length sz, by omega, by omega, h1.symm, (fun hc => by cases hc), h2.symm,
+            (fun hc => by cases hc), by subst h3; rfl, by subst h3; rfl⟩
+      | wrapMany =>
+        simp only [Spec.write, h0, if_false, hadm, Bool.not_true, Bool.false_eq_true, hm] at h
+        split at h
+        · simp at h
+        · simp only [Option.some.injEq, Prod.mk.injEq] at h
+          obtain ⟨h1, h2, h3⟩ := h
+          right
+          exact ⟨bs.length, by omega, by omega, h1.symm, (fun hc => by cases hc), h2.symm,
+            (fun hc => by cases hc), by subst h3; simp, by subst h3; rfl⟩
+    · simp [Spec.write, h0, hadm] at h
+
+/-- exact drop accounting: bytes held before + bytes accepted = bytes held after + bytes dropped,
+    and the buffer never holds more than its (reported) size -/
+theorem spec_write_conservation (f f' : Spec.Fifo) (bs : List UInt8) (sz : Nat) (r : Int) (d : Nat)
+    (hfs : 0 < f.size) (hq : f.q.length ≤ f.size) (h : Spec.write f bs sz = some (r, d, f')) (hr : 0 ≤ r) :
+    f.q.length + r.toNat = f'.q.length + d ∧ f'.q.length ≤ f'.size := by
+  rcases spec_write_shape f f' bs sz r d hfs h with ⟨_, h1, h2, h3⟩ | ⟨_, hs1, _, h4⟩
+  · subst h1 h2 h3; simp; exact hq
+  · rcases h4 with ⟨h1, _⟩ | ⟨k, hk0, hk1, hr', _, hd, _, hq', hsz⟩
+    · omega
+    · subst hr'
+      rw [hq', hsz, hd]
+      simp only [Spec.lastN, List.length_drop, List.length_append, List.length_take, Int.toNat_natCast]
+      omega
+
+/-- nothing is invented or reordered: the new queue is a suffix of "old queue ++ accepted prefix" -/
+theorem spec_write_suffix (f f' : Spec.Fifo) (bs : List UInt8) (sz : Nat) (r : Int) (d : Nat)
+    (hfs : 0 < f.size) (h : Spec.write f bs sz = some (r, d, f')) :
+    ∃ k, f'.q = (f.q ++ bs.take r.toNat).drop k := by
+  rcases spec_write_shape f f' bs sz r d hfs h with ⟨_, h1, _, h3⟩ | ⟨_, _, _, h4⟩
+  · subst h1 h3; exact ⟨0, by simp⟩
+  · rcases h4 with ⟨h1, _, hq', _⟩ | ⟨k, _, _, hr', _, _, _, hq', _⟩
+    · subst h1; exact ⟨0, by simp [hq']⟩
+    · subst hr'; exact ⟨(f.q ++ bs.take k).length - sz, by rw [hq']; simp [Spec.lastN]⟩
+
+/-- in no-drop mode a write never discards anything: it is shortened or refused -/
+theorem spec_nodrop_lossless (f f' : Spec.Fifo) (bs : List UInt8) (sz : Nat) (r : Int) (d : Nat)
+    (hfs : 0 < f.size) (hm : f.mode = .noDrop) (h : Spec.write f bs sz = some (r, d, f')) :
+    d = 0 ∧ (r = -1 ∨ r ≥ 0) ∧ f'.q = f.q ++ bs.take r.toNat := by
+  rcases spec_write_shape f f' bs sz r d hfs h with ⟨_, h1, h2, h3⟩ | ⟨_, _, _, h4⟩
+  · subst h1 h2 h3; simp
+  · rcases h4 with ⟨h1, h2, hq', _⟩ | ⟨k, _, _, hr', hk, _, hd0, hq', _⟩
+    · subst h1 h2; simp [hq']
+    · subst hr'
+      refine ⟨hd0 hm, by omega, ?_⟩
+      rw [hq']
+      have := hk hm
+      simp only [Spec.lastN, List.length_append, List.length_take, Int.toNat_natCast]
+      have hz : f.q.length + min k bs.length - sz = 0 := by omega
+      rw [hz]; simp
+
+/-- a line read is all or nothing: it returns 0 and changes nothing, or removes exactly the bytes it
+    reports, and those bytes end in a newline -/
+theorem spec_readLine_whole (f : Spec.Fifo) (len lines : Int) (hl : lines ≥ -1) (hlen : len ≥ 0) :
+    let r := Spec.readLine f len lines
+    (r.1 = 0 ∧ r.2.2 = f) ∨
+    (r.1 > 0 ∧ r.2.2.q = f.q.drop r.1.toNat ∧ r.1.toNat ≤ f.q.length ∧
+      (f.q.take r.1.toNat).getLast? = some 10) := by
+  simp only [Spec.readLine, Spec.peekLine]
+  have hc : ¬ (len < 0 ∨ lines < -1) := by omega
+  simp only [hc, if_false]
+  have hle := lineBytes_le f (len - 1) lines
+  have hnl := lineBytes_ends_nl f (len - 1) lines
+  generalize Spec.lineBytes f (len - 1) lines = n at hle hnl
+  by_cases hn : n = 0
+  · left; subst hn; simp
+  · right
+    have hpos : (n : Int) > 0 := by omega
+    simp only [hpos, if_true, Int.toNat_natCast]
+    exact ⟨trivial, trivial, hle, hnl (by omega)⟩
+
+/-- non-vacuity: a concrete history with growth, wrap-around and a line read is accepted -/
+example :
+    (do let c ← create 2 5 1
+        acceptS (abs c) (traceM c [.write [97, 10, 98], .write [99, 100, 10, 101], .readLine 8 1, .read 3])).isSome
+      = true := by decide
 
 end PdshVerif.C13
